@@ -1,4 +1,5 @@
 import BitbybitModel.Props.Examples
+import BitbybitModel.Macro.Args
 /-!
 # C06 — the raw value round-trips; ZERO / DEFAULT / Default / new carry the declared value
 
@@ -96,5 +97,92 @@ theorem base_storage (n : Nat) : (Base.new n).internal = storageOf n ∧ (Base.n
 /-! non-vacuity -/
 example := raw_roundtrip Ex.noTypes true (Base.new 24) 0xABCDEF Ex.wf24 (by decide)
 example := default_raw Ex.noTypes true { raw := .bool false } (Base.new 24) 0xFFFFFF Ex.wf24 (by decide)
+
+
+/-! ## the argument list: every way of declaring (or not declaring) a default -/
+
+/-- **literal default, both separators** (`default = v` and the legacy `default: v`) -/
+theorem args_default_lit (cv : String → Option Nat) (b : String) (sep : ATok) (hs : sep = .colon ∨ sep = .eq) (v : Nat) :
+    parseBitfieldArgs cv [⟨[b], []⟩, ⟨["default"], [sep, .int v false]⟩] = .ok (b, some (.lit v), false) := by
+  rcases hs with rfl | rfl <;> simp [parseBitfieldArgs, parseArgsFrom, parseArg, leftover]
+
+/-- **named-constant default, both separators** -/
+theorem args_default_const (cv : String → Option Nat) (b c : String) (sep : ATok) (hs : sep = .colon ∨ sep = .eq) (v : Nat)
+    (hc : cv c = some v) :
+    parseBitfieldArgs cv [⟨[b], []⟩, ⟨["default"], [sep, .ident c]⟩] = .ok (b, some (.const v), false) := by
+  rcases hs with rfl | rfl <;> simp [parseBitfieldArgs, parseArgsFrom, parseArg, leftover, hc]
+
+/-- no default -/
+theorem args_no_default (cv : String → Option Nat) (b : String) :
+    parseBitfieldArgs cv [⟨[b], []⟩] = .ok (b, none, false) := by
+  simp [parseBitfieldArgs, parseArgsFrom, parseArg, leftover]
+
+/-- an empty argument list is an error -/
+theorem args_empty (cv : String → Option Nat) : ∃ e, parseBitfieldArgs cv [] = .error e := ⟨_, rfl⟩
+
+/-- after the base type, an argument that is neither `default` nor `debug` and carries no further tokens is ignored -/
+theorem parseArg_unknown (i : Nat) (hi : i ≠ 0) (p : List String) (hp : p ≠ []) (h1 : p ≠ ["default"]) (h2 : p ≠ ["debug"])
+    (st : ArgState) : parseArg i ⟨p, []⟩ st = .ok st := by
+  unfold parseArg
+  have : p.isEmpty = false := by cases p <;> simp_all
+  simp [this, hi, h1, h2, leftover]
+
+/-- past element 0 the position of an argument does not matter -/
+theorem parseArg_index (i j : Nat) (hi : i ≠ 0) (hj : j ≠ 0) (a : ArgSyn) (st : ArgState) : parseArg i a st = parseArg j a st := by
+  unfold parseArg; simp [hi, hj]
+
+theorem parseArgsFrom_index (as : List ArgSyn) : ∀ (i j : Nat), i ≠ 0 → j ≠ 0 → ∀ st, parseArgsFrom i as st = parseArgsFrom j as st := by
+  induction as with
+  | nil => intro i j _ _ st; rfl
+  | cons a as ih =>
+    intro i j hi hj st
+    simp only [parseArgsFrom, parseArg_index i j hi hj a st]
+    cases parseArg j a st with
+    | error e => rfl
+    | ok st' => exact ih (i + 1) (j + 1) (by omega) (by omega) st'
+
+/-- **unknown arguments are ignored wherever they stand** (after the base type) -/
+theorem args_unknown_ignored (p : List String) (hp : p ≠ []) (h1 : p ≠ ["default"]) (h2 : p ≠ ["debug"]) :
+    ∀ (pre post : List ArgSyn) (i : Nat), i ≠ 0 → ∀ st,
+      parseArgsFrom i (pre ++ ⟨p, []⟩ :: post) st = parseArgsFrom i (pre ++ post) st := by
+  intro pre
+  induction pre with
+  | nil =>
+    intro post i hi st
+    simp only [List.nil_append, parseArgsFrom, parseArg_unknown i hi p hp h1 h2 st]
+    exact parseArgsFrom_index post (i + 1) i (by omega) hi st
+  | cons a pre ih =>
+    intro post i hi st
+    simp only [List.cons_append, parseArgsFrom]
+    cases parseArg i a st with
+    | error e => rfl
+    | ok st' => exact ih post (i + 1) (by omega) st'
+
+/-- of two defaults the later one counts -/
+theorem args_last_default_wins (cv : String → Option Nat) (b : String) (v w : Nat) :
+    parseBitfieldArgs cv [⟨[b], []⟩, ⟨["default"], [.eq, .int v false]⟩, ⟨["default"], [.colon, .int w false]⟩]
+      = .ok (b, some (.lit w), false) := by
+  simp [parseBitfieldArgs, parseArgsFrom, parseArg, leftover]
+
+/-- `debug` sets the flag and nothing else -/
+theorem args_debug (cv : String → Option Nat) (b : String) :
+    parseBitfieldArgs cv [⟨[b], []⟩, ⟨["debug"], []⟩] = .ok (b, none, true) := by
+  simp [parseBitfieldArgs, parseArgsFrom, parseArg, leftover]
+
+/-- a quirk of the argument parser, shared by model and code: a literal that is not an integer after `default =` is
+    consumed without declaring a default (the declaration is accepted and has no `DEFAULT`) -/
+theorem args_nonint_literal_quirk (cv : String → Option Nat) (b : String) :
+    parseBitfieldArgs cv [⟨[b], []⟩, ⟨["default"], [.eq, .otherLit]⟩] = .ok (b, none, false) := by
+  simp [parseBitfieldArgs, parseArgsFrom, parseArg, leftover]
+
+/-- what cannot be a default is an error: no separator, a negative literal, leftover tokens, tokens after the base -/
+theorem args_default_errors (cv : String → Option Nat) (b : String) (v : Nat) :
+    (parseBitfieldArgs cv [⟨[b], []⟩, ⟨["default"], [.int v false]⟩]).toBool = false ∧
+    (parseBitfieldArgs cv [⟨[b], []⟩, ⟨["default"], []⟩]).toBool = false ∧
+    (parseBitfieldArgs cv [⟨[b], []⟩, ⟨["default"], [.eq, .int v true]⟩]).toBool = false ∧
+    (parseBitfieldArgs cv [⟨[b], []⟩, ⟨["default"], [.eq, .int v false, .int v false]⟩]).toBool = false ∧
+    (parseBitfieldArgs cv [⟨[b], [.eq, .int v false]⟩]).toBool = false := by
+  refine ⟨?_, ?_, ?_, ?_, ?_⟩ <;> simp [parseBitfieldArgs, parseArgsFrom, parseArg, leftover, Except.toBool]
+
 
 end Bb.C06
